@@ -511,6 +511,31 @@ Section Shared.
       + intros x [<-|Hx]; simpl; eauto.
   Qed.
 
+  (** * G. entries that are not the appender's own log files are never touched (removed, renamed, written) *)
+  Lemma TBOUND_TCAL : TBOUND < TCAL.
+  Proof. unfold TBOUND, TCAL. lia. Qed.
+
+  Lemma opened_matches ro f : (forall i n u, In (i, n, u) ro -> 0 <= u < TBOUND) -> opened ro f -> matches c f = true.
+  Proof.
+    intros Hb [->|[i [n [u [Hin ->]]]]]; apply join_date_matches; pose proof TBOUND_TCAL; [lia|specialize (Hb _ _ _ Hin); lia].
+  Qed.
+
+  Definition InvW (s : state) : Prop :=
+    forall f, In f (dir sp) -> matches c (fname f) = false -> In f (dir s).
+
+  Lemma invW : forall s, reach s -> InvW s.
+  Proof.
+    induction 1 as [|s e R IH V].
+    - unfold InvW. intros f Hf _. unfold s0, restart. rewrite (next_ok_small (rot c) t0 (proj2 Ht0)).
+      destruct (create (join_date c t0) (dir sp) (tick sp)) as [d tk] eqn:Hc. simpl.
+      replace d with (fst (create (join_date c t0) (dir sp) (tick sp))) by (rewrite Hc; reflexivity). apply create_keeps. exact Hf.
+    - pose proof (invF s R) as [[HD _] _]. pose proof (invO s R) as [_ [_ [O3 _]]]. pose proof (invT s R) as [_ [T2 _]].
+      step_cases s; try exact IH; unfold InvW; simpl; rf; try exact IH.
+      + intros f Hf Hnm. apply refresh_keeps_foreign; auto.
+      + intros x Hx Hnm. apply append_keeps_other; [apply IH; auto|].
+        intro E. pose proof (opened_matches _ _ T2 (O3 _ _ _ _ _ Hpc)) as Hm. rewrite <- E in Hm. congruence.
+  Qed.
+
   (** * The theorems, for every event list *)
   Lemma sorted_nodup (l : list (nat * Z * Z)) :
     StronglySorted (fun a b => from_of b < from_of a) l -> NoDup (map from_of l).
@@ -603,6 +628,12 @@ Section Shared.
   Proof.
     intros evs V l Hl E. apply (invO _ (reach_run evs V)); auto. rewrite (proj1 (invE _ (reach_run evs V))). exact E.
   Qed.
+
+  (** whatever in the directory is not one of the appender's log files (prefix / suffix / date shape) is still there,
+      byte for byte, with its creation stamp *)
+  Theorem shared_foreign_untouched : forall evs, Forall valid_ev evs ->
+    forall f, In f (dir sp) -> matches c (fname f) = false -> In f (dir (run c s0 evs)).
+  Proof. intros evs V. apply (invW _ (reach_run evs V)). Qed.
 
   (** a thread that saw boundary [n] reached and attempts the compare_exchange leaves [n] rotated: by itself
       or by the earlier winner - together with NoDup above: exactly one rotation per boundary *)
